@@ -3,6 +3,7 @@ CONSTANTS Procs = {"p1", "p2", "p3"}
           REth = {12289, 12290, 12291, 12292}
           Addrs = {1, 2, 3, 4, 9}
           MaxCrash = 0
+          MaxFault = 1
           MaxPre = 0
           Mutex = TRUE
           LockedInit = TRUE
